@@ -2,7 +2,18 @@ package simrt
 
 import (
 	"fmt"
+	"os"
 )
+
+// dumpLog, if set (VERIF_DUMPLOG=<path>, meant for replays), receives every
+// event line; it does not take part in the hash.
+var dumpLog *os.File
+
+func init() {
+	if p := os.Getenv("VERIF_DUMPLOG"); p != "" {
+		dumpLog, _ = os.Create(p)
+	}
+}
 
 // EventLog hashes every event line; the hash is the determinism witness.
 // Logging never draws choices and never reads a real clock.
@@ -42,6 +53,9 @@ func (l *EventLog) sched(id uint64) {
 func (l *EventLog) line(s string) {
 	l.mix([]byte(s))
 	l.n++
+	if dumpLog != nil {
+		dumpLog.WriteString(s + "\n")
+	}
 	if l.keep == 0 {
 		return
 	}
